@@ -621,6 +621,12 @@ class Executor:
             v = st.env.get(name)
             if isinstance(v, SOpt):
                 st.env[name] = v.val
+            elif isinstance(v, SGuard):
+                alts = [(g, x) for g, x in v.alts if x is not None]
+                if len(alts) == 1:
+                    st.env[name] = alts[0][1]
+                elif alts:
+                    st.env[name] = SGuard(alts)
         if isinstance(test, ast.Compare) and len(test.ops) == 1 and isinstance(test.left, ast.Name):
             c = test.comparators[0]
             if isinstance(c, ast.Constant) and c.value is None:
